@@ -158,6 +158,7 @@ def run_case(prop, case, wall=150.0, confirm=True):
         # events (a pure function of code and input).  Finishing means "slow machine", exhausting it is the verdict.
         from sim.steps import LineBudget, BudgetExceeded, OUTER_TOOL
         hung = [c for c, _ in out.fails if c.startswith("hang:")] or ["hang:unknown"]
+        _busy(True)         # tells the parent that this worker is confirming a wall alarm (its deadline is extended)
         out2 = Out()
         b = LineBudget(CONFIRM_BUDGET, tool=OUTER_TOOL, jumps=True)
         old = signal.signal(signal.SIGALRM, _alarm)
@@ -170,6 +171,7 @@ def run_case(prop, case, wall=150.0, confirm=True):
                 signal.setitimer(signal.ITIMER_REAL, 0)
                 signal.signal(signal.SIGALRM, old)
             out2.probe("wall_alarm_not_confirmed_slow_case")
+            _busy(False)
             return out2
         except BudgetExceeded:
             out2.fails = [f for f in out.fails if not f[0].startswith("hang:")]
@@ -180,6 +182,19 @@ def run_case(prop, case, wall=150.0, confirm=True):
     if timed_out and not any(c.startswith("hang:") for c, _ in out.fails):
         out.fail("hang:unknown")
     return out
+
+
+def _busy(on):
+    f = os.environ.get("VERIF_BUSY_FILE")
+    if not f:
+        return
+    try:
+        if on:
+            open(f, "w").close()
+        elif os.path.exists(f):
+            os.remove(f)
+    except OSError:
+        pass
 
 
 def shrink(prop, case, clause, budget=400, wall=40.0, kid=None):
@@ -259,7 +274,14 @@ def worker_main(argv):
             kid = known.match(prop, case, clause)
             fk = clause + ("" if kid is None else " [" + kid + "]")
             res["fail_counts"][fk] += 1
-            if fk not in seen_clause and len(seen_clause) < 12:
+            if fk not in seen_clause and len(seen_clause) < 12 and clause.startswith("no-termination:"):
+                # confirmed by the line-event budget already; minimising a non-terminating case would spend the
+                # worker's whole time allowance on re-running it, so it is reported as found
+                seen_clause[fk] = 1
+                res["failures"].append({"clause": clause, "known": kid, "index": i, "case": case,
+                                        "original_case": case, "shrink_tries": 0,
+                                        "detail": next((d for c, d in out.fails if c == clause), None)})
+            elif fk not in seen_clause and len(seen_clause) < 12:
                 seen_clause[fk] = 1
                 try:
                     small, tries = shrink(prop, case, clause, kid=kid)
@@ -270,6 +292,10 @@ def worker_main(argv):
                     detail = next((d for c, d in out.fails if c == clause), None)
                 res["failures"].append({"clause": clause, "known": kid, "index": i, "case": small,
                                         "original_case": case, "detail": detail, "shrink_tries": tries})
+        if any(c.startswith("no-termination:") for c in out.clauses()):
+            res["truncated"] = i + 1        # one confirmed non-termination is a verdict; more would only cost hours
+            break
+    _busy(False)
     res["digest"] = fold.hexdigest()
     res["wall_s"] = time.time() - t0
     res["n_sigs"] = len(res["sigs"])
